@@ -76,7 +76,7 @@ def tlc_models(tier, n, wcounts, mixw, bign, bigw, simseed):
                                        lib.workdir("C31", "mix_sim"), timeout=1500, workers=1, simulate=f"num={140 if quick else 900}", seed=simseed, depth=400),
         "mix_small": lambda: lib.run_tlc("ExecutorMix", mix_cfg(mix_consts(range(0, nm + 1), [1, 2, 3], True, rounds=2, allupto=nm, chunks=both), MIXINVS),
                                          lib.workdir("C31", "mix_small"), timeout=1500, workers=SMALL),
-        "mix_big": lambda: lib.run_tlc("ExecutorMix", mix_cfg(mix_consts([12] if quick else [10, 11, 12, 13, 17], [2] if quick else [2, 3], True,
+        "mix_big": lambda: lib.run_tlc("ExecutorMix", mix_cfg(mix_consts([12] if quick else [10, 11, 12, 13], [2] if quick else [2, 3], True,
                                                                          allupto=nm, chunks=both), MIXINVS[:-1], action_constraints=["SubmitFirst"]),
                                        lib.workdir("C31", "mix_big"), timeout=1500, workers=SMALL if quick else None),
         "gen": lambda: lib.run_tlc("ExecutorGen", lib.cfg(constants=model_consts([n], wcounts, True, device=True, rounds=1),
@@ -89,6 +89,8 @@ def tlc_models(tier, n, wcounts, mixw, bign, bigw, simseed):
                                       lib.workdir("C31", "mc_any"), timeout=1500, workers=SMALL),
     }
     if not quick:
+        jobs["mix_big2"] = lambda: lib.run_tlc("ExecutorMix", mix_cfg(mix_consts([17, 21], [2], True, allupto=nm, chunks=both), MIXINVS[:-1],
+                                                                       action_constraints=["SubmitFirst"]), lib.workdir("C31", "mix_big2"), timeout=1500)
         jobs["mix_any"] = lambda: lib.run_tlc("ExecutorMix", mix_cfg(mix_consts(range(0, nm), [1, 2, 3], False, rounds=2, allupto=nm), MIXINVS),
                                               lib.workdir("C31", "mix_any"), timeout=1500, workers=SMALL)
     for bug, fifo in BUGS.items():
@@ -460,7 +462,7 @@ def _run(tier, rng, procs, proc, thr, seeds, n, t0, seed):
                      "batch_layer": {"module": "ExecutorMix", "invariants": MIXINVS,
                                      "states_all_compositions_fifo_2rounds": res["mix_small"].distinct,
                                      "states_all_compositions_any_dispatch_2rounds": res["mix_any"].distinct if "mix_any" in res else "thorough tier",
-                                     "states_large_batches": res["mix_big"].distinct,
+                                     "states_large_batches": res["mix_big"].distinct + (res["mix_big2"].distinct if "mix_big2" in res else 0),
                                      "variants_violate_only_inside_input_class": {b: v[1] for b, v in MIXBUGS.items()}}},
            "configurations": [{"family": g["family"], "backend": g["backend"], "max_workers": g["w"], "seed": g["seed"], "batch": g["n"],
                                "shots_pattern_per_execution": [fa(m) for m in g["masks"]] if g["masks"] else "fixed", "devices": len(g["members"]),
